@@ -50,7 +50,9 @@ func baseClientConfig() *plugin.ClientConfig {
 // launch: "cmd" | "runner" | "runner-translate" (custom runner that sees the
 // socket directory under another spelling than the plugin does) | "runner-ctx" /
 // "runner-ctx-slow" (custom runner whose Kill honours its context, without / with
-// a 400 ms grace period).
+// a 400 ms grace period) | "runner-forward" (custom runner through which the host
+// reaches the plugin's unix sockets as TCP forwarders: translation changes the
+// network kind).
 func prepare(caseID int, sub string, pcfg map[string]any, ccfg *plugin.ClientConfig, launch string, extraEnv ...string) *launched {
 	l := &launched{Cfg: ccfg}
 	l.Dir = caseDir(caseID, sub+"p")
@@ -100,6 +102,7 @@ func prepare(caseID int, sub string, pcfg map[string]any, ccfg *plugin.ClientCon
 				return nil, err
 			}
 			pr.HostPrefix, pr.PluginPrefix = hostPrefix, plugPrefix
+			pr.ForwardTCP = launch == "runner-forward"
 			if strings.HasPrefix(launch, "runner-ctx") {
 				pr.KillHonoursCtx = true
 				if launch == "runner-ctx-slow" {
